@@ -422,9 +422,26 @@ class Parser:
 
 def parse_fn(sig, body):
     """sig: text up to the body brace; returns (name, [(param_name, type_text)], ret_type_text, block)"""
-    m = re.match(r'fn\s+(\w+)\s*(?:<[^>]*>)?\s*\((.*)\)\s*(?:->\s*(.*?))?\s*(?:where.*)?$', sig, re.S)
-    if not m: raise Unsupported("signature: " + sig)
-    name, ps, ret = m.group(1), m.group(2), (m.group(3) or '()').strip()
+    m0 = re.match(r'fn\s+(\w+)\s*', sig)
+    if not m0: raise Unsupported("signature: " + sig)
+    name = m0.group(1); i = m0.end()
+    if i < len(sig) and sig[i] == '<':            # generics, possibly nested
+        d = 0
+        while i < len(sig):
+            d += sig[i] == '<'; d -= sig[i] == '>' and sig[i - 1] != '-'
+            i += 1
+            if d == 0: break
+    while i < len(sig) and sig[i].isspace(): i += 1
+    if i >= len(sig) or sig[i] != '(': raise Unsupported("signature: " + sig)
+    j = i; d = 0
+    while j < len(sig):
+        d += sig[j] == '('; d -= sig[j] == ')'
+        j += 1
+        if d == 0: break
+    ps = sig[i + 1:j - 1]
+    rest = sig[j:].strip()
+    mr = re.match(r'->\s*(.*?)\s*(?:where.*)?$', rest, re.S)
+    ret = (mr.group(1) if mr else '()').strip() or '()'
     params = []
     depth = 0; cur = ''
     for ch in ps + ',':
